@@ -503,7 +503,14 @@ def guard_atoms(node, stop=None) -> list:
             if len(clause) == 1:
                 out.append(clause[0])
             elif clause:
-                out.append((test, edge == "t"))
+                # a disjunctive clause is kept as one literal `l1 or l2 or …` (independent of how the test spelt it: `not (a and (b or c))` on its
+                # false edge and `a and (b or c)` on its true edge give the same atoms)
+                alts = [e if pol else ast.UnaryOp(op=ast.Not(), operand=e) for e, pol in clause]
+                lit = ast.BoolOp(op=ast.Or(), values=alts)
+                ast.copy_location(lit, test)
+                ast.fix_missing_locations(lit)
+                lit._parent = getattr(test, "_parent", None)
+                out.append((lit, True))
 
     child = node
     for anc in ancestors(node):
